@@ -93,3 +93,49 @@ def monitor(ctx, keys, rng, n=5):
                                                              "documented_results": pin["out"], "function_results": have_out,
                                                              "inputs": {pin["in"][i]: vals[i].ravel()[:12] for i in range(f.n_in())}})
                 break
+
+
+def _derive_all(prefix, reverse=False):
+    out = {}
+    with contextlib.redirect_stdout(io.StringIO()):
+        if prefix.startswith("attitude."):
+            from cyecca.estimate.attitude import algorithms
+            _walk(algorithms.eqs()[prefix.split(".", 1)[1]], out)
+            return out
+        mod = importlib.import_module("cyecca.models." + prefix)
+        names = [n for n in sorted(dir(mod), reverse=reverse) if n.startswith("derive_") and callable(getattr(mod, n))]
+        for n in names:
+            try:
+                _walk(getattr(mod, n)(), out)
+            except Exception:
+                pass
+    return out
+
+
+def derivation_history(ctx, prefixes, rng, n=3):
+    """what a derive_* call returns depends on the code, not on which derive_* calls came before it in the process:
+    derive everything, derive everything again in the opposite order, compare the functions on the same inputs"""
+    for prefix in prefixes:
+        first = _derive_all(prefix)
+        again = _derive_all(prefix, reverse=True)
+        for name, f in first.items():
+            g = again.get(name)
+            key = prefix + ":" + name
+            if g is None or g.n_in() != f.n_in() or g.n_out() != f.n_out() or any(g.size_in(i) != f.size_in(i) for i in range(f.n_in())):
+                ctx.violation("derivation_independent_of_earlier_derivations", key, {"second_derivation": None if g is None else str(g)[:200], "first": str(f)[:200]})
+                continue
+            if f.n_in() == 0:
+                continue
+            for _ in range(n):
+                vals = [ca.DM(np.asarray(rng.normal(size=f.size_in(i)))) for i in range(f.n_in())]
+                try:
+                    a = [np.array(ca.DM(o).full()) for o in f.call(vals)]
+                    b = [np.array(ca.DM(o).full()) for o in g.call(vals)]
+                except Exception:
+                    ctx.count("derivation_history_eval_failed:" + key)
+                    break
+                ctx.tally("derivation_independent_of_earlier_derivations")
+                bad = [f.name_out(j) for j in range(len(a)) if a[j].shape != b[j].shape or not np.array_equal(a[j], b[j], equal_nan=True)]
+                if bad:
+                    ctx.violation("derivation_independent_of_earlier_derivations", key, {"results_that_differ": bad, "inputs": [np.array(v).ravel()[:12] for v in vals]})
+                    break
